@@ -89,6 +89,11 @@ def e1_int_coder(ctx):
         tlc_mc(ctx, "IntCoder", "MC_IntCoder_dev_NoFinalClose.cfg", workers=4, expect_violation="ChunksRight")
 
 
+def e1_load_layout(ctx):
+    tlc_mc(ctx, "LoadLayout", "MC_LoadLayout.cfg", workers=4)
+    tlc_mc(ctx, "LoadLayout", "MC_LoadLayout_dev_FieldsLookAhead.cfg", workers=4, expect_violation="LookAheadInsideData")
+
+
 def e1_stored_codec(ctx):
     tlc_mc(ctx, "StoredCodec", "MC_StoredCodec.cfg", workers=4)
     tlc_mc(ctx, "StoredCodec", "MC_StoredCodec_dev_NoFinalFlush.cfg", workers=4, expect_violation="TableShape")
@@ -186,6 +191,7 @@ def plan_C03(ctx):
 
 
 def plan_C04(ctx):
+    e1_load_layout(ctx)
     e1_stored_codec(ctx)
     e1_writer_crc(ctx)
     run_family(ctx, "roundtrip", n_of(ctx, 150, 3000), perfile=n_of(ctx, 10, 30))
@@ -256,6 +262,7 @@ def plan_C09(ctx):
 
 
 def plan_C10(ctx):
+    e1_load_layout(ctx)
     e1_stored_codec(ctx)
     e1_chunking(ctx)
     run_family(ctx, "xver", n_of(ctx, 80, 1500), perfile=n_of(ctx, 8, 20))
